@@ -43,7 +43,10 @@ def asciiOfName (n : Name) : String := strOfName n
 /-- `x<hex>` names (arbitrary spelling), `,`-separated, `-` = empty list -/
 def parseXNames (s : String) : Option (List Name) :=
   if s = "-" then some [] else
-  (s.splitOn ",").mapM (fun p => if p.startsWith "x" then unhex (let r := (p.drop 1).toString; if r = "" then "-" else r) else none)
+  (s.splitOn ",").mapM (fun p => if p.startsWith "x" then textOfHex (let r := (p.drop 1).toString; if r = "" then "-" else r) else none)
+
+/-- names travel as `x` + hex of their UTF-8 bytes (empty name = `x`) -/
+def xhex (n : Name) : String := if n.isEmpty then "" else hex (utf8Encode n)
 
 def f32OfBits (s : String) : Option F32 := s.toNat?.map F32.ofBits
 
@@ -198,8 +201,8 @@ def handleDetect (args : List String) : String :=
       | some o =>
         match fromBytes (worldNow o) tablesNow sorter b s with
         | .ok (.ok ms) => s!"ok {ms.length} " ++ " ".intercalate (ms.map showMatch)
-        | .ok (.error (.badInclude n)) => s!"err include x{hex n}"
-        | .ok (.error (.badExclude n)) => s!"err exclude x{hex n}"
+        | .ok (.error (.badInclude n)) => s!"err include x{xhex n}"
+        | .ok (.error (.badExclude n)) => s!"err exclude x{xhex n}"
         | .error (.fault f) => s!"fault {showFault f}"
         | .error (.need q) =>
           let qs := (q :: speculate o b s).eraseDups
